@@ -41,3 +41,14 @@ Example C13_examples :
   disabled NoLpmX OLpm [OR8 0; OIndex (INone RZ)] = true /\ disabled NoLpmX OLpm [] = false /\
   available {| flash_size := 1; ram_start := 0; ram_size := 0; eeprom_size := 0; opts := [NoYreg] |} OLdd [OR8 1; OIndex (IPostIncE RY (EConst 1))] = false.
 Proof. vm_compute. repeat split; reflexivity. Qed.
+
+(** IN A PROGRAM.  Every instruction of a build that pass 2 accepts - wherever it stands, before or after the line that selected the
+    device, in whatever segment of the list - passed the gate of THE device of the program (the one the finished parse selected:
+    pass 2 never changes it); with [C13_gate]: no image holds an instruction its device lacks. *)
+Require Import AvraV.Model.Parse AvraV.Proofs.BranchProofs.
+Theorem C13_every_instruction_gated : forall fuel c segs r2,
+  pass2 fuel c segs = Ok r2 ->
+  forall pre sg post ipre cp op args ipost, segs = (pre ++ sg :: post)%list -> items sg = (ipre ++ (cp, IInstr op args) :: ipost)%list ->
+  check_instruction (dev c) op args = true.
+Proof. exact pass2_gates_every_instruction. Qed.
+Print Assumptions C13_every_instruction_gated.
